@@ -223,6 +223,11 @@ pub fn run(ctx: &mut Ctx) {
 
     // --- corpus: the two defects known at the pinned commit + the offset-sign one found here ---
     let five_ms = civil(2022, 1, 3, 7, 56, 37, 5_000_000, 6 * 3600).unwrap();
+    // field widths at and beyond what the formatter accepts (u16::MAX), and beyond usize
+    for f in ["%65535N", "%65536N", "%65539z", "%_65539z", "%070000Y", "%99999999999999999999d", "%-65536j", "%^65536a", "%65536%", "%:65536z"] {
+        g.fmt_case("corpus-width", five_ms, f);
+        g.tz_case("corpus-width", five_ms, f, 5);
+    }
     g.fmt_case("corpus-d7", five_ms, "%é");
     g.fmt_case("corpus-d7", five_ms, "x%-5日y");
     g.fmt_case("corpus-d7", five_ms, "%:é");
